@@ -20,7 +20,7 @@ CHECKS = {
  "C04": dict(
    level="exploration", design="DESIGN.md §7 C04",
    text="Same simulated store workload as C02 with the indexer as a scheduled task (yield between reading a bulk and inserting it, so snapshots are arbitrarily stale and flush/compaction/close land mid-bulk) and an indexing-option swarm (bulk size, flush/sync thresholds, node size, cache, buffered-data limits). Oracle after every cycle and reopen: Get, History (both directions, offset/limit), GetBetween and full scans (asc/desc, deleted/expired filtered) equal a key-value model rebuilt from the committed log.",
-   note="Default index only so far (prefixed/mapped indexes are exercised through the SQL checks); expirations use the simulated clock.",
+   note="Default index only (prefixed/mapped indexes are exercised through the SQL checks); full scans and prefix scans (a prefix that is itself a key, a proper prefix of several keys) in both directions; expirations use the simulated clock.",
    technique="deterministic simulation: seeded schedules of writers/indexer/maintenance vs key-value model of the log"),
  "C03": dict(
    level="fault_enumeration", design="DESIGN.md §7 C03",
@@ -50,12 +50,12 @@ CHECKS = {
  "C05": dict(
    level="exploration", design="DESIGN.md §7 C05",
    text="2-5 tasks run generated transaction programs (Get incl. not-found, ascending/descending range scans over a prefix with inclusive/exclusive seek and early termination, Set, Delete, commit/cancel, read-only transactions) over 7 overlapping keys, together with a write-only committer and index maintenance, interleaved by the scheduler at yield points between operations, between scan steps, inside precommit and at the indexer (arbitrarily stale snapshots). All read results are recorded. Oracle: ids dense and every committed id acknowledged; committed transactions replayed serially in id order against a key-value model: each recorded read (own writes overlaid) must equal the model's answer on the state of ids < n; read-only transactions must have observed one single committed state; conflicted/cancelled transactions leave no trace.",
-   note="Not generated yet: GetWithPrefix with exclusion key, reader Reset/Offset, ReadBetween, MarkPrefixScanned, SetTransient, a second index. Get on a key deleted earlier by the same transaction returns the transaction's own tombstone; the harness treats that as not found.",
+   note="Operations: Get, range scans in both directions (prefix k, seek key, inclusive/exclusive), Set, Delete, MarkPrefixScanned as first operation (its own oracle: the marked key space must be unchanged at the commit position). Not generated yet: GetWithPrefix with exclusion key, reader Reset/Offset, ReadBetween, SetTransient, a second index. Get on a key deleted earlier by the same transaction returns the transaction's own tombstone; the harness treats it as not found.",
    technique="deterministic simulation: seeded schedules of concurrent tx programs, serial replay in commit order vs KV model"),
  "C06": dict(
    level="exploration", design="DESIGN.md §7 C06",
    text="A real pkg/database.DB (store plus its KV/SQL/document indexers) inside the bubble; 2-5 client tasks issue Set, two-key Set, Set with a precondition (must exist / must not exist / not modified after tx), Delete, Get, Scan and History over 4 keys with unique values while index flush/compaction runs; every call and return is stamped with the simulator's global event sequence number. Oracle (a), exact and polynomial because every write returns its tx id: each read must equal the model at some state between the last write that returned before the read was invoked and the last write invoked before it returned; a conditional write must have been applied iff its precondition holds on the state immediately preceding it in commit order (a refused one must have been false in some state of its interval). Oracle (b): porcupine (CheckOperationsTimeout, 10 s) on the per-key register histories of single-key operations; Illegal is a violation, Unknown is counted as inconclusive.",
-   note="Not generated yet: ExecAll, SetReference, ZAdd/ZScan, GetAll, Count, Get with SinceTx/AtTx/AtRevision. Transient 'limit exceeded' / 'read conflict' errors of writes are treated as no-effect failures.",
+   note="Operations: Set, multi-key Set, the same batch through ExecAll, conditional Set (three precondition kinds), Delete, Get, Get at the transaction of an earlier write, GetAll, Scan, History; flush/compaction interleaved. Not generated yet: SetReference, ZAdd/ZScan, Count, Get with SinceTx/AtRevision. Transient 'limit exceeded' / 'read conflict' errors of writes are treated as no-effect failures.",
    technique="deterministic simulation: seeded concurrent client histories, tx-id interval check + porcupine linearizability"),
  "C07": dict(
    level="exploration", design="DESIGN.md §7 C07 (layer A)",
@@ -80,7 +80,7 @@ CHECKS = {
  "C13": dict(
    level="exploration", design="DESIGN.md §7 C13",
    text="2-4 session tasks run generated explicit transactions (INSERT/UPDATE/DELETE/SELECT, COMMIT or ROLLBACK, SAVEPOINT + ROLLBACK TO SAVEPOINT) over one table, plus an observer outside any transaction. A reference interpreter replays the committed transactions serially in commit order: every in-transaction SELECT must equal interpreter(state before the transaction + own earlier statements), affected-row counts must match, the final table must equal the serial execution (rolled back and failed transactions leave no trace), the observer only ever sees states after a prefix of the committed transactions, and transactions that did not commit saw a committed state plus their own changes.",
-   note="Engine API only: the server-side session transaction manager and the PostgreSQL wire front-end are not driven. DDL inside transactions and RELEASE SAVEPOINT are not generated.",
+   note="Two layers. A (85% of the runs): embedded/sql engine API, concurrent session tasks under the scheduler, savepoints. B (15%): the server's session transaction API over in-bubble gRPC (NewTx / TxSQLExec / TxSQLQuery / Commit / Rollback on a real ImmuServer), sessions advanced one statement at a time in seeded order, sessions closed or expired by the simulated clock in the middle of a transaction; same oracle (serial replay against the reference interpreter, no trace of what did not commit, COMMIT after the session ended must fail). Not driven: the PostgreSQL wire front-end, DDL inside transactions (except C12's rolled-back DROP CONSTRAINT), RELEASE SAVEPOINT, per-statement affected-row counts in layer B (TxSQLExec does not return them).",
    technique="deterministic simulation: seeded concurrent session programs vs reference interpreter, serial replay in commit order"),
  "C18": dict(
    level="exploration", design="DESIGN.md §7 C18",
